@@ -43,6 +43,7 @@ def gen_case(rng):
         order.append(rng.choice(order))                 # overwrite an existing position
     deviation = rng.choice([None, None, None, "chans", "sr", "order"]) if nent >= 2 else None
     dev_pos = rng.choice(order) if deviation else None
+    force_subs = deviation == "sr" and rng.random() < 0.5
     s = regs.S()
     prog = [("SNew", s)]
     have_sr = rng.random() < 0.9
@@ -62,6 +63,8 @@ def gen_case(rng):
                 ch = list(reversed(chans))
         rng.random() < 0.5 and ch.reverse()
         as_sub = rng.random() < 0.2 and not long and sr_i == SR
+        if force_subs and sr_i == SR and not long:
+            as_sub = True          # the only plain element is the one with the deviating rate
         if as_sub:
             s2 = regs.S()
             prog += [("SNew", s2), ("SSetSR", s2, SR)]
